@@ -53,6 +53,7 @@ type NamedGuard struct {
 // `start`) to any sink takes a pass edge of guard g.  One obligation per
 // (fn, guard, sinkDesc).
 func Dominates(c *core.Ctx, rule string, fn *ssa.Function, g NamedGuard, sinks []ir.Sink, sinkDesc string, opt *Opt) bool {
+	g.G = ir.AllForms(g.G)
 	if fn == nil {
 		return false
 	}
